@@ -21,20 +21,29 @@ Definition holds3 (c : C03_case) : Prop := holds3_case_b c = true.
      other arguments); a dispatch that returns owes nothing any more (nobody
      is missed); a name without listeners owes nothing and returns silently;
    - is_handler answers membership of the registered set;
-   - after each class definition the new class maps what its base mapped,
-     overridden by the decorator's names and keyword mappings, and the
-     __events__ of every other class is what it was. *)
+   - after each class definition (any number of bases, the MRO being Python's)
+     the new class maps what it inherits along its MRO, overridden by the
+     decorator's names and keyword mappings (event_handler() with no argument:
+     exactly what it inherits), and the __events__ of every other class is
+     what it was. *)
 Theorem C03_dispatch_exactly_registered :
   forall c : C03_case, wf3_b c = true -> known3_b c = false -> accepts c = true -> holds3 c.
 Proof. exact C03_accepts_holds. Qed.
 Print Assumptions C03_dispatch_exactly_registered.
 
-(* The decorator as a function: inherited-then-own override for the new class,
-   all earlier classes untouched. *)
+(* The decorator as a function, for any hierarchy (several bases, decorated and
+   undecorated classes mixed): what the new class inherits is what attribute
+   lookup finds along its MRO - the mapping of the first class after itself
+   to which a decorator assigned one; event_handler() without arguments leaves
+   the class reading exactly that; otherwise the class gets the inherited
+   mapping overridden by the names and then by the keyword mappings; all
+   earlier classes are untouched. *)
 Theorem C03_decorator_pure :
-  forall tb d, NoDup (map fst (cd_maps d)) ->
-    firstn (length tb) (decorate tb d) = tb /\
-    forall e, alookup e (decorated tb d) = expect_lookup (inherited tb d) (cd_names d) (cd_maps d) e.
+  forall info tb d mro, NoDup (map fst (cd_maps d)) ->
+    firstn (length tb) (decorate info tb d mro) = tb /\
+    (empty_deco d = true -> decorated info tb d mro = inherited info tb mro) /\
+    (empty_deco d = false -> exists m, decorated info tb d mro = Some m /\
+       forall e, alookup e m = expect_lookup (or_empty (inherited info tb mro)) (cd_names d) (cd_maps d) e).
 Proof. exact decorator_pure. Qed.
 Print Assumptions C03_decorator_pure.
 
@@ -64,13 +73,25 @@ Theorem C03_call_is_owed_once :
 Proof. exact call_is_owed_once. Qed.
 Print Assumptions C03_call_is_owed_once.
 
-(* non-vacuity: subclass with an overriding mapping, double registration,
-   removal from inside a callback, re-entrant dispatch with keywords *)
+(* non-vacuity: a diamond (class 3 has bases 1 and 2; 1 is undecorated, so 3
+   inherits through its MRO [3; 1; 2; 0] the mapping of 2, which overrides
+   event 0), double registration, removal from inside a callback, re-entrant
+   dispatch with keywords *)
+Definition ex_classes : list (cdef * cobs) :=
+  [({| cd_cls := 0; cd_bases := []; cd_names := [0; 1]; cd_maps := [] |},
+    {| co_mro := [0]; co_tab := [(0, Some [(0, 0); (1, 1)])] |});
+   ({| cd_cls := 1; cd_bases := [0]; cd_names := []; cd_maps := [] |},
+    {| co_mro := [1; 0]; co_tab := [(0, Some [(0, 0); (1, 1)]); (1, Some [(0, 0); (1, 1)])] |});
+   ({| cd_cls := 2; cd_bases := [0]; cd_names := []; cd_maps := [(0, 2)] |},
+    {| co_mro := [2; 0];
+       co_tab := [(0, Some [(0, 0); (1, 1)]); (1, Some [(0, 0); (1, 1)]); (2, Some [(0, 2); (1, 1)])] |});
+   ({| cd_cls := 3; cd_bases := [1; 2]; cd_names := [1]; cd_maps := [] |},
+    {| co_mro := [3; 1; 2; 0];
+       co_tab := [(0, Some [(0, 0); (1, 1)]); (1, Some [(0, 0); (1, 1)]); (2, Some [(0, 2); (1, 1)]);
+                  (3, Some [(0, 2); (1, 1)])] |})].
 Definition ex_ok : C03_case :=
-  {| c_classes := [({| cd_cls := 0; cd_base := None; cd_names := [0; 1]; cd_maps := [] |}, [(0, [(0, 0); (1, 1)])]);
-                   ({| cd_cls := 1; cd_base := Some 0; cd_names := []; cd_maps := [(0, 2)] |},
-                    [(0, [(0, 0); (1, 1)]); (1, [(0, 2); (1, 1)])])];
-     c_hcls := [(1, 0); (2, 1); (3, 0)]; c_eqs := [];
+  {| c_classes := ex_classes;
+     c_hcls := [(1, 0); (2, 3); (3, 1)]; c_eqs := [];
      c_scripts := [(1, [(0, [ARemove 3; ADispatch 1 4])])];
      c_ops := [AAdd 1; AAdd 2; AAdd 3; AAdd 2; ADispatch 0 1; AIs 3; ADispatch 0 0];
      c_log := [EAct (AAdd 1); EAct (AAdd 2); EAct (AAdd 3); EAct (AAdd 2); EAct (ADispatch 0 1);
@@ -94,16 +115,28 @@ Example C03_double_delivery_rejected :
                                  ECall 2 1 0 0; ERet; EEnd 0]) = false.
 Proof. vm_compute. reflexivity. Qed.
 Example C03_aliasing_decorator_rejected :
-  holds3_case_b {| c_classes := [({| cd_cls := 0; cd_base := None; cd_names := [0; 1]; cd_maps := [] |}, [(0, [(0, 0); (1, 1)])]);
-                                 ({| cd_cls := 1; cd_base := Some 0; cd_names := []; cd_maps := [(0, 2)] |},
-                                  [(0, [(0, 2); (1, 1)]); (1, [(0, 2); (1, 1)])])];
+  holds3_case_b {| c_classes := [({| cd_cls := 0; cd_bases := []; cd_names := [0; 1]; cd_maps := [] |},
+                                  {| co_mro := [0]; co_tab := [(0, Some [(0, 0); (1, 1)])] |});
+                                 ({| cd_cls := 1; cd_bases := [0]; cd_names := []; cd_maps := [(0, 2)] |},
+                                  {| co_mro := [1; 0];
+                                     co_tab := [(0, Some [(0, 2); (1, 1)]); (1, Some [(0, 2); (1, 1)])] |})];
+                   c_hcls := []; c_eqs := []; c_scripts := []; c_ops := []; c_log := [] |} = false.
+Proof. vm_compute. reflexivity. Qed.
+(* a decorator that takes the mapping of the first base only (ignoring the MRO) *)
+Example C03_first_base_only_rejected :
+  holds3_case_b {| c_classes := firstn 3 ex_classes ++
+                     [({| cd_cls := 3; cd_bases := [1; 2]; cd_names := [1]; cd_maps := [] |},
+                       {| co_mro := [3; 1; 2; 0];
+                          co_tab := [(0, Some [(0, 0); (1, 1)]); (1, Some [(0, 0); (1, 1)]); (2, Some [(0, 2); (1, 1)]);
+                                     (3, Some [(0, 0); (1, 1)])] |})];
                    c_hcls := []; c_eqs := []; c_scripts := []; c_ops := []; c_log := [] |} = false.
 Proof. vm_compute. reflexivity. Qed.
 
 (* K4 (known finding): two distinct handlers that are == and hash-equal are
    one registration; the model mirrors the code, the property fails *)
 Definition k4_witness : C03_case :=
-  {| c_classes := [({| cd_cls := 0; cd_base := None; cd_names := [0]; cd_maps := [] |}, [(0, [(0, 0)])])];
+  {| c_classes := [({| cd_cls := 0; cd_bases := []; cd_names := [0]; cd_maps := [] |},
+                      {| co_mro := [0]; co_tab := [(0, Some [(0, 0)])] |})];
      c_hcls := [(1, 0); (2, 0)]; c_eqs := [(2, 1)]; c_scripts := [];
      c_ops := [AAdd 1; AAdd 2; ADispatch 0 1];
      c_log := [EAct (AAdd 1); EAct (AAdd 2); EAct (ADispatch 0 1); ECall 1 0 0 1; ERet; EEnd 0] |}.
